@@ -27,6 +27,7 @@ func c01Hashers() []namedHasher {
 		{"constFF", func() hash.Hasher { return constHasher("constFF", 0xff, 128) }},
 		{"ctr", func() hash.Hasher { return ctrHasher("ctr", false, 128) }},
 		{"ctr-hi", func() hash.Hasher { return ctrHasher("ctr-hi", true, 128) }},
+		{"ctr-own-buffer", func() hash.Hasher { return ownBufferHasher("ctr-own-buffer", 128) }},
 	}
 }
 
@@ -216,6 +217,55 @@ func C01(run *mon.Run) {
 		}
 		run.Eval(2)
 		run.Shape("hasher-errors")
+	}
+
+	// a hasher that returns the SAME output buffer on every call, used for alternating messages by one
+	// goroutine while nothing else runs: whatever the library derives from a digest must not be looked up
+	// later through the digest slice itself
+	{
+		own := ownBufferHasher("ctr-own-buffer", 128)
+		plain := crypto.NewExpandMsgXOFKMAC128("after-own-buffer")
+		m := [2][]byte{[]byte("own-buffer message one"), []byte("own-buffer message two")}
+		for ki := 0; ki < 3; ki++ {
+			key := keys[(ki*5)%len(keys)]
+			pk := key.sk.PublicKey()
+			var E [2][]byte
+			okH := true
+			for i := range m {
+				H, err := hashPoint(m[i], own, "ctr-own-buffer")
+				if err != nil {
+					okH = false
+					break
+				}
+				E[i] = ref.EncodeG1(ref.E1.Mul(H, key.k))
+			}
+			Hp, err := hashPoint(m[0], plain, "kmac:after-own-buffer")
+			if !okH || err != nil {
+				run.Violate("C01:hash-point:own-buffer", "cannot obtain hash points", nil)
+				break
+			}
+			Ep := ref.EncodeG1(ref.E1.Mul(Hp, key.k))
+			seq := []struct {
+				sig    []byte
+				msg    []byte
+				h      hash.Hasher
+				expect bool
+				what   string
+			}{
+				{E[0], m[0], own, true, "sig1/msg1"}, {E[1], m[1], own, true, "sig2/msg2"}, {E[0], m[1], own, false, "sig1/msg2"},
+				{E[1], m[0], own, false, "sig2/msg1"}, {E[0], m[0], own, true, "sig1/msg1"}, {Ep, m[0], plain, true, "plain hasher after the own-buffer hasher"},
+				{E[0], m[0], plain, false, "own-buffer signature under the plain hasher"}, {E[1], m[1], own, true, "sig2/msg2"}, {E[1], m[1], own, true, "sig2/msg2 again"}, {E[0], m[1], own, false, "sig1/msg2"},
+			}
+			for si, c := range seq {
+				ok, err := pk.Verify(c.sig, c.msg, c.h)
+				run.Eval(1)
+				if err != nil || ok != c.expect {
+					run.Violate("C01:own-buffer-hasher-sequence", fmt.Sprintf("step %d (%s) of a sequence of verifications through a hasher that reuses its output buffer: Verify = (%v,%v), expected %v (key %s)", si, c.what, ok, err, c.expect, key.name), map[string]any{"step": si, "what": c.what, "k": key.k.Text(16)})
+					break
+				}
+			}
+		}
+		run.Shape("own-buffer-hasher-sequence")
 	}
 
 	type triple struct {
